@@ -1,172 +1,438 @@
 (** C10 - A failed database write never leaves a half-applied or silently lost
-    change.  Property theorems only; proofs are in Fault/FaultProofs.v.
+    change.  Property theorems only; proofs are in Fault/FaultProofs.v and
+    Fault/FaultSites.v.
 
-    The model's [Bind] propagates errors by construction, so the theorems are
-    about the code only if the code propagates the error of every write.  That
-    fact is regenerated from the source on every run (Generated/ErrFlow.v, one
-    entry per call whose error may stem from a write, with what the caller
-    does with it) and is the premise [write_errors_propagated] of every
-    theorem below; it is discharged here by computation on the table.  When an
-    error is dropped in wtxmgr or waddrmgr the Generated file still compiles
-    and THIS file does not. *)
+    The programs of the model contain, at every place where the Go code
+    receives an error that may stem from a database write, a [Call] whose
+    semantics is READ FROM THE TABLE of Generated/ErrFlow.v (regenerated from
+    the source on every run: site id -> what the caller does with the error).
+    The theorems hold for a program under the hypothesis that every site it
+    can reach is Propagated in the table ([sites_propagate]); without it they
+    are false ([C10_dropped_site_refutes_it]).  For the transcribed operations
+    the hypothesis is discharged here, PER KIND OF OPERATION, by computation on
+    the regenerated table ([C10_sites_<operation>]): when an error is dropped,
+    logged-and-ignored, deferred-and-discarded or handled in a way the
+    extractor does not recognise at some site, exactly the obligations of the
+    operations that use the site fail (this file stops compiling at the first
+    of them; lib/c10.py lists them all), and the model run under the table then
+    exhibits the failing input ([bad_positions]), which the check replays on
+    the implementation.
+
+    Memory clause.  Every operation of the address manager has a memory effect
+    and a shape saying when the Go code applies it; the shape is regenerated
+    from the source ([ErrFlow.mem_shapes]) and required here
+    ([C10_memory_shapes_from_source]).  For every operation whose shape is not
+    "before its own writes" - all but SetBirthday - the clause is a theorem
+    ([C10_memory_after_disk_operations]).  Effects applied as soon as the
+    operation's own writes are done (not at commit) survive the rollback
+    caused by a LATER call of the same database transaction: those are the
+    known findings; [C10_failure_in_first_call_leaks_nothing] says that this is
+    the only way. *)
 From stdpp Require Import gmap.
-From Coq Require Import ZArith List.
-From Verif Require Import Fault.Fault Fault.FaultProofs Fault.FaultTx Fault.FaultMgr.
+From Coq Require Import ZArith List String.
+From Verif Require Import Fault.Fault Fault.FaultProofs Fault.FaultTx Fault.FaultMgr Fault.FaultSites Fault.FaultCorr.
 From Verif Require Generated.ErrFlow.
 Import ListNotations.
 
-Definition write_errors_propagated : Prop := ErrFlow.all_propagated = true.
+(** the table of this tree *)
+Definition the_table : table := table_of ErrFlow.site_rows.
 
-(** Tie to the source: no call site of the two packages drops the error of a
-    database write (table of this tree, decided by computation). *)
-Theorem C10_source_propagates_write_errors : write_errors_propagated.
-Proof. exact (eq_refl true). Qed.
-Print Assumptions C10_source_propagates_write_errors.
+(** the table is looked up through a trie; on every site id of the table
+    that is the plain association list of ErrFlow.  (A site the transcription
+    names but the table lacks - restructured source - is judged by the
+    whole-package condition, see [table_of]; lib/c10.py lists such sites in the
+    evidence: none on this tree.) *)
+Theorem C10_table_lookup_is_the_generated_list :
+  forallb (fun s => match trie_find s (trie_of ErrFlow.site_rows), assoc_site s ErrFlow.site_rows with
+                    | Some a, Some b => N.eqb a b
+                    | None, None => true
+                    | _, _ => false
+                    end)
+          (""%string :: "no such site"%string :: map fst ErrFlow.site_rows) = true.
+Proof. vm_compute. reflexivity. Qed.
+Print Assumptions C10_table_lookup_is_the_generated_list.
 
-(** Error or full effect, for every program of the language, every store and
-    every fault position: the run reports an error, or the fault lies at or
-    beyond the number of writes and result, store and call count are those of
-    the fault-free run.  Never [Ok] after a strict prefix of the writes. *)
-Theorem C10_error_or_full_effect : write_errors_propagated ->
-  forall A (p : prog A) s k,
-  match run p s O (Some k) with
-  | (Ok r, s', n) => writes p s <= k /\ (Ok r, s', n) = run p s O None
+(** ** The premise, per kind of operation (decided on the regenerated table;
+    closed computations: the two theorems that collect them carry the Print
+    Assumptions) *)
+Fact C10_sites_InsertTx_unmined : sites_ok the_table (tx_sites (EvSeen 0)) = true.
+Proof. vm_compute. reflexivity. Qed.
+
+Fact C10_sites_InsertTx_mined : sites_ok the_table (tx_sites (EvConfirm 0 0 0 0)) = true.
+Proof. vm_compute. reflexivity. Qed.
+
+Fact C10_sites_InsertTx_again : sites_ok the_table (tx_sites (EvRedeliver 0 0 0 0)) = true.
+Proof. vm_compute. reflexivity. Qed.
+
+Fact C10_sites_Rollback : sites_ok the_table (tx_sites (EvDisconnect 0)) = true.
+Proof. vm_compute. reflexivity. Qed.
+
+Fact C10_sites_RemoveUnminedTx : sites_ok the_table (tx_sites (EvAbandon 0)) = true.
+Proof. vm_compute. reflexivity. Qed.
+
+Fact C10_sites_LockOutput : sites_ok the_table (tx_sites (EvLease 0 0 0 0)) = true.
+Proof. vm_compute. reflexivity. Qed.
+
+Fact C10_sites_UnlockOutput : sites_ok the_table (tx_sites (EvRelease 0 0 0)) = true.
+Proof. vm_compute. reflexivity. Qed.
+
+Fact C10_sites_DeleteExpiredLockedOutputs : sites_ok the_table (tx_sites (EvSweep)) = true.
+Proof. vm_compute. reflexivity. Qed.
+
+Fact C10_sites_PutTxLabel : sites_ok the_table (tx_sites (EvLabel 0 0)) = true.
+Proof. vm_compute. reflexivity. Qed.
+
+Fact C10_sites_wtxmgr_Create : sites_ok the_table (tx_sites (EvCreate)) = true.
+Proof. vm_compute. reflexivity. Qed.
+
+Fact C10_sites_NewScopedKeyManager : sites_ok the_table (mgr_sites (MNewScope 0)) = true.
+Proof. vm_compute. reflexivity. Qed.
+
+Fact C10_sites_NewAccount : sites_ok the_table (mgr_sites (MNewAccount 0 0)) = true.
+Proof. vm_compute. reflexivity. Qed.
+
+Fact C10_sites_NewAccountWatchingOnly : sites_ok the_table (mgr_sites (MNewAccountWO 0 0)) = true.
+Proof. vm_compute. reflexivity. Qed.
+
+Fact C10_sites_NewRawAccountWatchingOnly : sites_ok the_table (mgr_sites (MNewRawAccountWO 0 0)) = true.
+Proof. vm_compute. reflexivity. Qed.
+
+Fact C10_sites_RenameAccount : sites_ok the_table (mgr_sites (MRename 0 0 0)) = true.
+Proof. vm_compute. reflexivity. Qed.
+
+Fact C10_sites_NextExternalAddresses : sites_ok the_table (mgr_sites (MNext 0 0 0 1)) = true.
+Proof. vm_compute. reflexivity. Qed.
+
+Fact C10_sites_NextInternalAddresses : sites_ok the_table (mgr_sites (MNext 0 0 1 1)) = true.
+Proof. vm_compute. reflexivity. Qed.
+
+Fact C10_sites_ExtendExternalAddresses : sites_ok the_table (mgr_sites (MExtend 0 0 0 0)) = true.
+Proof. vm_compute. reflexivity. Qed.
+
+Fact C10_sites_ExtendInternalAddresses : sites_ok the_table (mgr_sites (MExtend 0 0 1 0)) = true.
+Proof. vm_compute. reflexivity. Qed.
+
+Fact C10_sites_MarkUsed : sites_ok the_table (mgr_sites (MMarkUsed [])) = true.
+Proof. vm_compute. reflexivity. Qed.
+
+Fact C10_sites_ImportPrivateKey : sites_ok the_table (mgr_sites (MImport 0 0 0 0 true)) = true.
+Proof. vm_compute. reflexivity. Qed.
+
+Fact C10_sites_ImportScript : sites_ok the_table (mgr_sites (MImport 0 1 0 0 true)) = true.
+Proof. vm_compute. reflexivity. Qed.
+
+Fact C10_sites_ImportPublicKey : sites_ok the_table (mgr_sites (MImport 0 2 0 0 false)) = true.
+Proof. vm_compute. reflexivity. Qed.
+
+Fact C10_sites_ImportWitnessScript : sites_ok the_table (mgr_sites (MImport 0 3 0 0 true)) = true.
+Proof. vm_compute. reflexivity. Qed.
+
+Fact C10_sites_ImportTaprootScript : sites_ok the_table (mgr_sites (MImport 0 4 0 0 true)) = true.
+Proof. vm_compute. reflexivity. Qed.
+
+Fact C10_sites_SetSyncedTo : sites_ok the_table (mgr_sites (MSetSyncedTo 0 0)) = true.
+Proof. vm_compute. reflexivity. Qed.
+
+Fact C10_sites_SetBirthdayBlock : sites_ok the_table (mgr_sites (MSetBirthdayBlock 0 0 true)) = true.
+Proof. vm_compute. reflexivity. Qed.
+
+Fact C10_sites_SetBirthday : sites_ok the_table (mgr_sites (MSetBirthday 0)) = true.
+Proof. vm_compute. reflexivity. Qed.
+
+Fact C10_sites_ChangePassphrase : sites_ok the_table (mgr_sites (MChangePassphrase true 0 0)) = true.
+Proof. vm_compute. reflexivity. Qed.
+
+Fact C10_sites_ConvertToWatchingOnly : sites_ok the_table (mgr_sites (MConvertWO)) = true.
+Proof. vm_compute. reflexivity. Qed.
+
+Fact C10_sites_waddrmgr_Create : sites_ok the_table (mgr_sites (MCreate false)) = true.
+Proof. vm_compute. reflexivity. Qed.
+
+(** ... hence for every operation, whatever its arguments *)
+Theorem C10_transaction_store_sites : forall e, sites_ok the_table (tx_sites e) = true.
+Proof.
+  apply tx_sites_by_kind. unfold tx_kinds. cbn [forallb snd].
+  rewrite C10_sites_InsertTx_unmined, C10_sites_InsertTx_mined, C10_sites_InsertTx_again, C10_sites_Rollback, C10_sites_RemoveUnminedTx, C10_sites_LockOutput, C10_sites_UnlockOutput, C10_sites_DeleteExpiredLockedOutputs, C10_sites_PutTxLabel, C10_sites_wtxmgr_Create. reflexivity.
+Qed.
+Print Assumptions C10_transaction_store_sites.
+
+Theorem C10_address_manager_sites : forall ops, sites_ok the_table (mgr_tx_sites ops) = true.
+Proof.
+  apply mgr_tx_sites_by_kind. unfold mgr_kinds. cbn [forallb snd].
+  rewrite C10_sites_NewScopedKeyManager, C10_sites_NewAccount, C10_sites_NewAccountWatchingOnly, C10_sites_NewRawAccountWatchingOnly, C10_sites_RenameAccount, C10_sites_NextExternalAddresses, C10_sites_NextInternalAddresses, C10_sites_ExtendExternalAddresses, C10_sites_ExtendInternalAddresses, C10_sites_MarkUsed, C10_sites_ImportPrivateKey, C10_sites_ImportScript, C10_sites_ImportPublicKey, C10_sites_ImportWitnessScript, C10_sites_ImportTaprootScript, C10_sites_SetSyncedTo, C10_sites_SetBirthdayBlock, C10_sites_SetBirthday, C10_sites_ChangePassphrase, C10_sites_ConvertToWatchingOnly, C10_sites_waddrmgr_Create. reflexivity.
+Qed.
+Print Assumptions C10_address_manager_sites.
+
+(** the source applies every operation's memory effect when the model says it does *)
+Theorem C10_memory_shapes_from_source :
+  forallb (fun ko => shape_ok ErrFlow.mem_shapes (snd ko)) mgr_kinds = true.
+Proof. vm_compute. reflexivity. Qed.
+Print Assumptions C10_memory_shapes_from_source.
+
+(** ** The theorems, for every program whose sites propagate *)
+
+(** Error or full effect, for every store and every fault position: the run
+    reports an error, or the fault lies at or beyond the number of writes and
+    result, store and call count are those of the fault-free run.  Never [Ok]
+    after a strict prefix of the writes. *)
+Theorem C10_error_or_full_effect : forall T A (p : prog A), sites_propagate T p -> forall s k,
+  match run T p s O (Some k) with
+  | (Ok r, s', n) => writes T p s <= k /\ (Ok r, s', n) = run T p s O None
   | (Err _, _, _) => True
   end.
-Proof. intros _. exact fault_error_or_full_effect. Qed.
+Proof. exact fault_error_or_full_effect. Qed.
 Print Assumptions C10_error_or_full_effect.
 
-(** Every write position is covered: a fault at any of the [writes p s]
+(** Every write position is covered: a fault at any of the [writes T p s]
     mutating calls is reported, as the injected error, right at that call. *)
-Theorem C10_every_failed_write_is_reported : write_errors_propagated ->
-  forall A (p : prog A) s k,
-  k < writes p s -> exists s', run p s O (Some k) = (Err Injected, s', S k).
-Proof. intros _. exact fault_within_writes_is_reported. Qed.
+Theorem C10_every_failed_write_is_reported : forall T A (p : prog A), sites_propagate T p -> forall s k,
+  k < writes T p s -> exists s', run T p s O (Some k) = (Err Injected, s', S k).
+Proof. exact fault_within_writes_is_reported. Qed.
 Print Assumptions C10_every_failed_write_is_reported.
 
+(** the model's search for a failing input finds nothing *)
+Theorem C10_no_failing_position : forall T A (p : prog A), sites_propagate T p -> forall s,
+  bad_positions T p s = [].
+Proof. exact no_bad_position. Qed.
+Print Assumptions C10_no_failing_position.
+
 (** After the enclosing transaction is rolled back the store is the one
-    before the operation (the all-or-nothing of walletdb.Update is C11). *)
-Theorem C10_rollback_restores : write_errors_propagated ->
-  forall A (p : prog A) s f e s', update p s f = (Err e, s') -> s' = s.
-Proof. intros _. exact rollback_restores. Qed.
+    before the operation (this one needs no hypothesis: it is what
+    walletdb.Update does, property C11). *)
+Theorem C10_rollback_restores : forall T A (p : prog A) s f e s', update T p s f = (Err e, s') -> s' = s.
+Proof. exact rollback_restores. Qed.
 Print Assumptions C10_rollback_restores.
 
 (** Retrying after the rollback gives the result and the store of a run
     without the fault. *)
-Theorem C10_retry_equals_clean_run : write_errors_propagated ->
-  forall A (p : prog A) s k,
-  match update p s (Some k) with
-  | (Err _, s1) => update p s1 None = update p s None
-  | (Ok r, s1) => (Ok r, s1) = update p s None
+Theorem C10_retry_equals_clean_run : forall T A (p : prog A), sites_propagate T p -> forall s k,
+  match update T p s (Some k) with
+  | (Err _, s1) => update T p s1 None = update T p s None
+  | (Ok r, s1) => (Ok r, s1) = update T p s None
   end.
-Proof. intros _. exact retry_equals_clean_run. Qed.
+Proof. exact retry_equals_clean_run. Qed.
 Print Assumptions C10_retry_equals_clean_run.
 
-(** Managers whose memory effect follows the disk part: on error memory and
-    store are as before, a retry equals the clean run. *)
-Theorem C10_memory_after_disk : write_errors_propagated ->
-  forall Mem R (o : op Mem R) m s k,
-  match run_op o m s (Some k) with
-  | (Ok r, m', s') => writes (disk o m) s <= k /\ (Ok r, m', s') = run_op o m s None
-  | (Err _, m', s') => m' = m /\ s' = s /\ run_op o m' s' None = run_op o m s None
-  end.
-Proof.
-  intros _ Mem R o m s k.
-  pose proof (op_error_or_full_effect Mem R o m s k) as H.
-  destruct (run_op o m s (Some k)) as [[r m'] s']. destruct r as [a|e].
-  - exact H.
-  - destruct H as [-> ->]. repeat split.
-Qed.
-Print Assumptions C10_memory_after_disk.
+(** The hypothesis is not decoration: with one site that returns nil on error
+    the first write can fail and the run answers [Ok]; the search finds it. *)
+Theorem C10_dropped_site_refutes_it :
+  writes T_dropped two_puts ∅ = 2%nat /\
+  fst (fst (run T_dropped two_puts ∅ O (Some O))) = Ok tt /\
+  bad_positions T_dropped two_puts ∅ = [O] /\
+  bad_positions all_propagate two_puts ∅ = [].
+Proof. exact dropped_site_refutes. Qed.
+Print Assumptions C10_dropped_site_refutes_it.
 
-(** The transcribed operations are programs of the language: the statements
-    above, instantiated for every event of the transaction store (insert
-    unmined/mined with credits, rollback, remove, lease, release, sweep) ... *)
-Theorem C10_transaction_store : write_errors_propagated ->
-  forall (U : universe) now (e : tx_event) s k,
-  match update (tx_prog U now e) s (Some k) with
-  | (Ok r, s') => writes (tx_prog U now e) s <= k /\ (Ok r, s') = update (tx_prog U now e) s None
-  | (Err _, s') => s' = s /\ update (tx_prog U now e) s' None = update (tx_prog U now e) s None
+(** ** The transcribed operations, under the table of this tree *)
+
+(** every event of the transaction store (insert unmined / mined with
+    credits, the same again, rollback, remove, lease, release, sweep, label,
+    creation) *)
+Theorem C10_transaction_store : forall (U : universe) now (e : tx_event) s k,
+  match update the_table (tx_prog U now e) s (Some k) with
+  | (Ok r, s') => writes the_table (tx_prog U now e) s <= k /\
+                  (Ok r, s') = update the_table (tx_prog U now e) s None
+  | (Err _, s') => s' = s /\
+                   update the_table (tx_prog U now e) s' None = update the_table (tx_prog U now e) s None
   end.
 Proof.
-  intros _ U now e s k.
-  pose proof (update_error_or_full_effect _ (tx_prog U now e) s k) as H.
-  destruct (update (tx_prog U now e) s (Some k)) as [r s']. destruct r as [a|x].
+  intros U now e s k.
+  pose proof (tx_sites_propagate the_table U now e (C10_transaction_store_sites e)) as Hsp.
+  pose proof (update_error_or_full_effect the_table _ (tx_prog U now e) Hsp s k) as H.
+  destruct (update the_table (tx_prog U now e) s (Some k)) as [r s']. destruct r as [a|x].
   - exact H.
   - rewrite H. split; reflexivity.
 Qed.
 Print Assumptions C10_transaction_store.
 
-(** ... and for every sequence of address-manager calls made inside one
-    database transaction (the disk parts of NewScopedKeyManager, NewAccount,
-    RenameAccount, Next/Extend addresses, MarkUsed, imports, SetSyncedTo,
-    SetBirthdayBlock, SetBirthday, ChangePassphrase). *)
-Theorem C10_address_manager_disk : write_errors_propagated ->
-  forall (ops : list mgr_op) s k,
-  match update (mgr_tx ops) s (Some k) with
-  | (Ok r, s') => writes (mgr_tx ops) s <= k /\ (Ok r, s') = update (mgr_tx ops) s None
-  | (Err _, s') => s' = s /\ update (mgr_tx ops) s' None = update (mgr_tx ops) s None
+(** every sequence of address-manager calls made inside one database
+    transaction, from every memory the disk parts can read (lock and watch-only
+    flags included): the disk side *)
+Theorem C10_address_manager_disk : forall (ops : list mgr_op) m s k,
+  match update the_table (mgr_tx ops m) s (Some k) with
+  | (Ok r, s') => writes the_table (mgr_tx ops m) s <= k /\
+                  (Ok r, s') = update the_table (mgr_tx ops m) s None
+  | (Err _, s') => s' = s /\
+                   update the_table (mgr_tx ops m) s' None = update the_table (mgr_tx ops m) s None
   end.
 Proof.
-  intros _ ops s k.
-  pose proof (update_error_or_full_effect _ (mgr_tx ops) s k) as H.
-  destruct (update (mgr_tx ops) s (Some k)) as [r s']. destruct r as [a|x].
+  intros ops m s k.
+  pose proof (mgr_tx_sites_propagate the_table ops m (C10_address_manager_sites ops)) as Hsp.
+  pose proof (update_error_or_full_effect the_table _ (mgr_tx ops m) Hsp s k) as H.
+  destruct (update the_table (mgr_tx ops m) s (Some k)) as [r s']. destruct r as [a|x].
   - exact H.
   - rewrite H. split; reflexivity.
 Qed.
 Print Assumptions C10_address_manager_disk.
 
+(** the explicit-memory run of a transaction ([mgr_update], what the
+    correspondence evaluates) has exactly this disk side *)
+Theorem C10_explicit_memory_run_has_this_disk_side : forall T (ops : list mgr_op) m s f,
+  let '(r, _, s', _) := mgr_update T ops m s f in
+  update T (mgr_tx ops m) s f = (r, s').
+Proof. intros T ops m s f. exact (update_steps_is_update T mem (map mgr_step_of ops) m s f). Qed.
+Print Assumptions C10_explicit_memory_run_has_this_disk_side.
+
+(** ** Memory *)
+
+(** Managers whose memory effect follows the disk part: on error memory and
+    store are as before, a retry equals the clean run. *)
+Theorem C10_memory_after_disk : forall T Mem R (o : op Mem R) m, sites_propagate T (disk o m) -> forall s k,
+  match run_op T o m s (Some k) with
+  | (Ok r, m', s') => writes T (disk o m) s <= k /\ (Ok r, m', s') = run_op T o m s None
+  | (Err _, m', s') => m' = m /\ s' = s /\ run_op T o m' s' None = run_op T o m s None
+  end.
+Proof.
+  intros T Mem R o m Hsp s k.
+  pose proof (op_error_or_full_effect T Mem R o m Hsp s k) as H.
+  destruct (run_op T o m s (Some k)) as [[r m'] s']. destruct r as [a|e].
+  - exact H.
+  - destruct H as [-> ->]. repeat split.
+Qed.
+Print Assumptions C10_memory_after_disk.
+
+(** ... instantiated: every operation of the address manager (NewScopedKeyManager,
+    NewAccount, NewAccountWatchingOnly, NewRawAccountWatchingOnly, RenameAccount,
+    Next / Extend addresses, MarkUsed, the five imports, SetSyncedTo,
+    SetBirthdayBlock, ChangePassphrase, ConvertToWatchingOnly, Create), run in
+    its own transaction under the table of this tree, from every memory
+    (locked or not) and every store.  SetBirthday is excluded by its shape. *)
+Theorem C10_memory_after_disk_operations : forall (o : mgr_op) m s k,
+  match run_op the_table (step_op (mgr_step_of o)) m s (Some k) with
+  | (Ok r, m', s') => writes the_table (mgr_disk o m) s <= k /\
+                      (Ok r, m', s') = run_op the_table (step_op (mgr_step_of o)) m s None
+  | (Err _, m', s') => m' = m /\ s' = s /\
+                       run_op the_table (step_op (mgr_step_of o)) m' s' None =
+                       run_op the_table (step_op (mgr_step_of o)) m s None
+  end.
+Proof.
+  intros o m s k.
+  apply (C10_memory_after_disk the_table mem (list key) (step_op (mgr_step_of o)) m).
+  apply mgr_disk_sites_propagate.
+  pose proof (C10_address_manager_sites [o]) as H. unfold mgr_tx_sites in H. simpl in H.
+  rewrite app_nil_r in H. exact H.
+Qed.
+Print Assumptions C10_memory_after_disk_operations.
+
+(** ... and [run_op] IS what the transaction semantics gives for a single call
+    of a shape other than BeforeOwnWrites *)
+Theorem C10_single_call_transaction : forall T (o : mgr_op) m s f,
+  mgr_shape o <> BeforeOwnWrites ->
+  let '(r, m', s', _) := mgr_update T [o] m s f in
+  match run_op T (step_op (mgr_step_of o)) m s f with
+  | (Ok _, m2, s2) => r = Ok tt /\ m' = m2 /\ s' = s2
+  | (Err e, m2, s2) => r = Err e /\ m' = m2 /\ s' = s2
+  end.
+Proof. intros T o m s f Hsh. exact (single_step_is_op T mem (mgr_step_of o) m s f Hsh). Qed.
+Print Assumptions C10_single_call_transaction.
+
+(** Several calls in one transaction: when the fault fires in the FIRST call
+    and that call is not SetBirthday, memory and store are as before.  (A fault
+    in a later call leaves the effects of the completed calls in memory: the
+    known findings, exhibited below.) *)
+Theorem C10_failure_in_first_call_leaks_nothing : forall T (o : mgr_op) rest m s f x m' s',
+  mgr_shape o <> BeforeOwnWrites ->
+  mgr_update T (o :: rest) m s f = (Err x, m', s', O) -> m' = m /\ s' = s.
+Proof.
+  intros T o rest m s f x m' s' Hsh H.
+  exact (first_step_failure_leaks_nothing T mem (mgr_step_of o) (map mgr_step_of rest) m s f x m' s' Hsh H).
+Qed.
+Print Assumptions C10_failure_in_first_call_leaks_nothing.
+
 (** ** Non-vacuity *)
 Local Open Scope Z_scope.
+Local Open Scope string_scope.
 
-Definition s0 : kv := mgr_init [0; 1; 2; 3] 0 0.
+Definition s0 : kv := mgr_init.
+Definition m0 : mem := mem0 false.
 
+(** waddrmgr.Create makes 94 mutating calls (13 without a root key) *)
+Example create_writes : writes the_table (mgr_tx [MCreate false] m0) mgr_fresh = 94%nat
+                        /\ writes the_table (mgr_tx [MCreate true] m0) mgr_fresh = 13%nat.
+Proof. vm_compute. split; reflexivity. Qed.
 (** issuing two addresses makes ten mutating calls; failing the 7th (index 6)
     is reported; failing beyond the 10th changes nothing *)
-Example next_two_addresses_writes : writes (mgr_tx [MNext 0 0 0 2]) s0 = 10%nat.
+Example next_two_addresses_writes : writes the_table (mgr_tx [MNext 0 0 0 2] m0) s0 = 10%nat.
 Proof. vm_compute. reflexivity. Qed.
 Example next_two_addresses_fault_6 :
-  fst (update (mgr_tx [MNext 0 0 0 2]) s0 (Some 6%nat)) = Err Injected.
+  fst (update the_table (mgr_tx [MNext 0 0 0 2] m0) s0 (Some 6%nat)) = Err Injected.
 Proof. vm_compute. reflexivity. Qed.
 Example next_two_addresses_fault_10 :
-  let '(r1, s1) := update (mgr_tx [MNext 0 0 0 2]) s0 (Some 10%nat) in
-  let '(r2, s2) := update (mgr_tx [MNext 0 0 0 2]) s0 None in
+  let '(r1, s1) := update the_table (mgr_tx [MNext 0 0 0 2] m0) s0 (Some 10%nat) in
+  let '(r2, s2) := update the_table (mgr_tx [MNext 0 0 0 2] m0) s0 None in
   r1 = r2 /\ dump s1 = dump s2 /\ dump s1 <> dump s0.
 Proof. vm_compute. repeat split. discriminate. Qed.
-Example rename_writes : writes (mgr_tx [MRename 0 0 7]) s0 = 5%nat.
+Example rename_writes : writes the_table (mgr_tx [MRename 0 0 7] m0) s0 = 5%nat.
 Proof. vm_compute. reflexivity. Qed.
-Example new_scope_writes : writes (mgr_tx [MNewScope 4]) s0 = 18%nat.
+Example new_scope_writes : writes the_table (mgr_tx [MNewScope 4] m0) s0 = 18%nat.
 Proof. vm_compute. reflexivity. Qed.
+Example convert_writes : writes the_table (mgr_tx [MConvertWO] m0) s0 = 17%nat.
+Proof. vm_compute. reflexivity. Qed.
+(** a locked manager refuses NewAccount before any write and issues addresses *)
+Example locked_manager :
+  fst (fst (run the_table (mgr_tx [MNewAccount 0 7] (mem0 true)) s0 O None)) = Err (OpErr eLocked)
+  /\ writes the_table (mgr_tx [MNewAccount 0 7] (mem0 true)) s0 = 0%nat
+  /\ writes the_table (mgr_tx [MNext 0 0 0 1] (mem0 true)) s0 = 5%nat.
+Proof. vm_compute. repeat split. Qed.
 
 (** a small universe: tx 2 spends an outside output and pays the wallet twice *)
 Definition U0 : universe :=
   {[ 2 := {| tx_ins := [(1, 0)]; tx_outs := [5000; 7000]; tx_creds := [(0, false); (1, true)];
              tx_coinbase := false |} ]}.
-Example seen_writes : writes (tx_prog U0 0 (EvSeen 2)) tx_store_init = 4%nat.
+Example seen_writes : writes the_table (tx_prog U0 0 (EvSeen 2)) tx_store_init = 4%nat.
 Proof. vm_compute. reflexivity. Qed.
 Example confirm_after_seen_writes :
-  writes (tx_prog U0 0 (EvConfirm 2 10 1 600)) (snd (tx_step U0 (0, tx_store_init) (EvSeen 2))) = 12%nat.
+  writes the_table (tx_prog U0 0 (EvConfirm 2 10 1 600)) (snd (tx_step the_table U0 (0, tx_store_init) (EvSeen 2))) = 12%nat.
 Proof. vm_compute. reflexivity. Qed.
+Example label_writes : writes the_table (tx_prog U0 0 (EvLabel 2 5)) tx_store_init = 2%nat.
+Proof. vm_compute. reflexivity. Qed.
+Example create_store_is_init :
+  writes the_table (tx_prog U0 0 EvCreate) tx_fresh = 12%nat /\
+  dump (snd (update the_table (tx_prog U0 0 EvCreate) tx_fresh None)) = dump tx_store_init.
+Proof. vm_compute. split; reflexivity. Qed.
 
-(** Why the premise is needed.  waddrmgr/db.go putAddrAccountIndex used to
-    answer nil when its first Put failed (repaired in the repository; the
-    replay is corpus/C10/putAddrAccountIndex_swallowed_put_error.json).  With
-    that shape - which is not a program of the language - failing the 2nd
-    write gives [Ok] and a store that lacks the index entries. *)
+(** What a dropped error does, on the real transcription.  waddrmgr/db.go
+    putAddrAccountIndex used to answer nil when its first Put failed (repaired
+    in the repository, 25cbf4f; the replay is
+    corpus/C10/putAddrAccountIndex_swallowed_put_error.json).  Put that
+    disposition into the table: the obligations of exactly the operations that
+    store addresses fail, failing the 2nd write of NextExternalAddresses gives
+    [Ok] with the address row but no index entry, and the search finds it. *)
+Definition table_25cbf4f : table := fun st =>
+  if String.eqb st "waddrmgr:putAddrAccountIndex>db.Put" then DroppedReturn else the_table st.
+Example swallowed_error_breaks_the_right_obligations :
+  kinds_failing table_25cbf4f =
+  ["NextExternalAddresses"; "NextInternalAddresses"; "ExtendExternalAddresses"; "ExtendInternalAddresses";
+   "ImportPrivateKey"; "ImportScript"; "ImportPublicKey"; "ImportWitnessScript"; "ImportTaprootScript"].
+Proof. vm_compute. reflexivity. Qed.
 Example swallowed_error_reports_success :
-  let '(r, s', _) := put_address_as_coded 0 0 [0; 0; 0; 0] s0 O (Some 1%nat) in
-  r = Ok tt /\ lookup2 s' (sb 0 oAddr) [0; 0; 0; 0] = Some [0]
-  /\ lookup2 s' (sb 0 oAddrAcctIdx) [0; 0; 0; 0] = None.
+  let '(r, s', _) := run table_25cbf4f (mgr_tx [MNext 0 0 0 1] m0) s0 O (Some 1%nat) in
+  r = Ok tt /\ lookup2 s' (sb 0 oAddr) [0; 0; 0; 0] = Some [0; 0]
+  /\ lookup2 s' (sb 0 oAddrAcctIdx) [0; 0; 0; 0] = None
+  /\ bad_positions table_25cbf4f (mgr_tx [MNext 0 0 0 1] m0) s0 = [1%nat; 3%nat].
 Proof. vm_compute. repeat split. Qed.
 
-(** Why the memory clause is stated for memory-after-disk operations only:
-    two steps with an early memory effect (remember the last address written,
-    as the read-back in nextAddresses does); the 2nd step's first write fails;
-    the store is rolled back but the memory keeps the first address. *)
-Definition eager_two_addresses : list (eager_step (list Z)) :=
-  [ (fun _ => put_chained_address 0 0 0 0, fun m => 0 :: m);
-    (fun _ => put_chained_address 0 0 0 1, fun m => 1 :: m) ].
-Example eager_memory_survives_rollback :
-  let '(r, m, s) := update_eager eager_two_addresses [] s0 (Some 5%nat) in
-  r = Err Injected /\ m = [0] /\ dump s = dump s0.
+(** The known findings are what the model's memory says: RenameAccount followed
+    by SetBirthdayBlock in one transaction, the 6th call (the first write of
+    SetBirthdayBlock) fails: the store is rolled back, the cached account name
+    is not; a fault inside RenameAccount itself leaks nothing. *)
+Example rename_then_later_failure_leaks_the_name :
+  let '(r, m, s, i) := mgr_update the_table [MRename 0 0 7; MSetBirthdayBlock 0 0 true] m0 s0 (Some 5%nat) in
+  r = Err Injected /\ i = 1%nat /\ mem_cats m0 m = [cAccountName] /\ dump s = dump s0.
+Proof. vm_compute. repeat split. Qed.
+Example rename_own_failure_leaks_nothing :
+  let '(r, m, s, i) := mgr_update the_table [MRename 0 0 7; MSetBirthdayBlock 0 0 true] m0 s0 (Some 3%nat) in
+  r = Err Injected /\ i = 0%nat /\ mem_cats m0 m = [] /\ dump s = dump s0.
+Proof. vm_compute. repeat split. Qed.
+(** SetBirthday assigns before it writes: its own failing write leaves the new
+    birthday in memory (known finding) *)
+Example set_birthday_own_failure_leaks :
+  let '(r, m, s, i) := mgr_update the_table [MSetBirthday 5] m0 s0 (Some 0%nat) in
+  r = Err Injected /\ mem_cats m0 m = [cBirthday].
+Proof. vm_compute. repeat split. Qed.
+(** nextAddresses registers its effect with OnCommit: nothing leaks even when a
+    later call fails *)
+Example next_then_later_failure_leaks_nothing :
+  let '(r, m, s, i) := mgr_update the_table [MNext 0 0 0 2; MSetBirthdayBlock 0 0 true] m0 s0 (Some 10%nat) in
+  r = Err Injected /\ i = 1%nat /\ mem_cats m0 m = [].
 Proof. vm_compute. repeat split. Qed.
